@@ -10,7 +10,7 @@ for r in bin/regen*.sh; do
   [ -x "$r" ] && { "$r" || echo "setup: $r failed (the affected checks will report it)"; }
 done
 bin/mkcoq.sh
-(cd coq && timeout 3000 make -j16 -k) || echo "setup: some Coq targets failed (the per-property checks report which)"
+(cd coq && timeout 2400 make -j16 -k COQC="timeout 600 coqc") || echo "setup: some Coq targets failed (the per-property checks report which)"
 cp /repo/go.sum harness/go.sum
 for d in harness/cmd/*/; do
   n=$(basename "$d")
